@@ -283,6 +283,14 @@ theorem rename_all_keeps_module_paths (treatDot : Bool) (file : Option (List Nam
       simp only [renameAll, List.map_cons, ih']
       rw [getModulePath_setClassName treatDot nm c file (h (nm, some c) (by simp) c rfl)]
 
+/-- non-vacuity: the two definitions of `api.json` that collapse to `Pet` in module `api.models`; the second is renamed -/
+example :
+    let jobs := [(n "models.Pet", none), (n "models.pet", some (n "PetModel"))]
+    (∀ j ∈ jobs, ∀ c, j.2 = some c → '.' ∉ c) ∧
+    renameAll jobs = [n "models.Pet", n "models.PetModel"] ∧
+    (renameAll jobs).map (fun nm => getModulePath false nm (some ([n "my-api"], n "api"))) =
+      [[n "my-api", n "api", n "models"], [n "my-api", n "api", n "models"]] := by decide
+
 /-- COMPOSITION with `relative_resolves_package_file`: the import a package file writes for the RENAMED
 class designates, by Python's rule, the module the class was grouped under (and is written to). -/
 theorem renamed_class_import_resolves_package_file (cur : MPath) (treatDot : Bool) (name cls : List Char)
